@@ -36,10 +36,10 @@ func die(f string, a ...interface{}) {
 // configuration
 
 // packages translated, in dependency order; Lean module name per package
-var pkgOrder = []string{"ff", "ffg", "utils", "babyjub", "poseidon", "mimc7", "goldenposeidon"}
-var pkgModule = map[string]string{"ff": "GoFF", "ffg": "GoFFG", "utils": "GoUtils", "babyjub": "GoBabyjub", "poseidon": "GoPoseidon", "mimc7": "GoMimc7", "goldenposeidon": "GoGolden"}
+var pkgOrder = []string{"keccak256", "ff", "ffg", "utils", "babyjub", "poseidon", "mimc7", "goldenposeidon"}
+var pkgModule = map[string]string{"keccak256": "GoKeccak", "ff": "GoFF", "ffg": "GoFFG", "utils": "GoUtils", "babyjub": "GoBabyjub", "poseidon": "GoPoseidon", "mimc7": "GoMimc7", "goldenposeidon": "GoGolden"}
 var pkgImports = map[string][]string{
-	"ff": {}, "ffg": {}, "utils": {}, "babyjub": {"GoUtils", "GoPoseidon", "GoMimc7"}, "poseidon": {"GoUtils"}, "mimc7": {"GoUtils"}, "goldenposeidon": {},
+	"keccak256": {}, "ff": {}, "ffg": {}, "utils": {}, "babyjub": {"GoUtils", "GoPoseidon", "GoMimc7"}, "poseidon": {"GoUtils"}, "mimc7": {"GoUtils"}, "goldenposeidon": {},
 }
 
 // packages of which only the listed functions are translated: the value-level algorithms of the field packages
@@ -62,7 +62,6 @@ var skip = map[string]string{
 	"utils.HexDecode":                  "encoding/hex, strings",
 	"utils.HexDecodeInto":              "encoding/hex, bytes",
 	"babyjub.init":                     "constants: translator T1",
-	"babyjub.Blake512":                 "extern: dchest/blake512 (modelled, C20)",
 	"babyjub.DecompressSig":            "text codec (C15 model)",
 	"babyjub.NewRandPrivKey":           "crypto/rand",
 	"babyjub.PublicKey.MarshalText":    "text codec (C15 model)",
@@ -86,7 +85,9 @@ var skip = map[string]string{
 	"goldenposeidon.init":              "constants: translator T1",
 }
 
-// repo functions that are referenced but modelled by a hand-written Lean definition
+// repo functions that their CALLERS see as a hand-written Lean definition (one-shot hash); the functions
+// themselves are translated too (write every slice into the external hasher object, then Sum), and
+// I3.Props.C20Gen proves the two equal
 var extern = map[string]string{
 	"keccak256.Hash":   "I3.Go.Ext.keccak256",
 	"babyjub.Blake512": "I3.Go.Ext.blake512",
@@ -209,6 +210,9 @@ func leanType(t types.Type) string {
 	}
 	if isError(t) {
 		return "(Option String)"
+	}
+	if isNamed(t, "hash", "Hash") {
+		return "I3.Go.Ext.Hasher"
 	}
 	switch tt := t.(type) {
 	case *types.Pointer:
@@ -1040,12 +1044,32 @@ func (t *tr) call(c *ast.CallExpr, want int) []string {
 		return []string{"(I3.Go.fe.one I3.Gen.ffg_modulus)"}
 	case modPath + "ffg.NewElementFromUint64":
 		return []string{"(I3.Go.fe.setUint64 I3.Gen.ffg_modulus " + t.expr(c.Args[0]) + ")"}
+	case "golang.org/x/crypto/sha3.NewLegacyKeccak256":
+		return []string{"I3.Go.Ext.Hasher.newKeccak256"}
+	case "github.com/dchest/blake512.New":
+		return []string{"I3.Go.Ext.Hasher.newBlake512"}
 	case "fmt.Errorf", "errors.New":
 		tv := t.info.Types[c.Args[0]]
 		if tv.Value == nil || tv.Value.Kind() != constant.String {
 			t.fail(c, "error message is not a constant")
 		}
 		return []string{fmt.Sprintf("(some %q : Option String)", constant.StringVal(tv.Value))}
+	}
+	// ---- hash.Hash objects (external state): Write rebinds the object, Sum is pure
+	if sig.Recv() != nil && (pkgPath == "io" || pkgPath == "hash") {
+		sel := c.Fun.(*ast.SelectorExpr)
+		if isNamed(t.typeOf(sel.X), "hash", "Hash") {
+			switch fn.Name() {
+			case "Write":
+				d := t.expr(c.Args[0])
+				h := t.expr(sel.X)
+				t.assignTo(sel.X, "(I3.Go.Ext.Hasher.write "+h+" "+d+")")
+				return []string{"(I3.Go.len " + d + ")", "(none : Option String)"}
+			case "Sum":
+				return []string{"(I3.Go.Ext.Hasher.sum " + t.expr(sel.X) + " " + t.expr(c.Args[0]) + ")"}
+			}
+		}
+		t.fail(c, "unsupported method %s on an external object", fn.Name())
 	}
 	// ---- repo functions
 	key := funcKey(fn)
